@@ -30,6 +30,11 @@ GLOBAL_ASSUMPTIONS = [
 
 
 def jsonable(v):
+    import datetime as _dtm
+    if isinstance(v, _dtm.datetime):
+        return {"datetime": v.isoformat()}
+    if isinstance(v, _dtm.timedelta):
+        return {"timedelta_us": (v.days * 86400 + v.seconds) * 10**6 + v.microseconds}
     if isinstance(v, fractions.Fraction):
         return {"fraction": "%d/%d" % (v.numerator, v.denominator), "float": float(v)}
     if isinstance(v, (bool, int, float, str)) or v is None:
@@ -51,6 +56,12 @@ def jsonable(v):
 
 def unjson(v):
     if isinstance(v, dict):
+        if "datetime" in v and len(v) == 1:
+            import datetime as _dtm
+            return _dtm.datetime.fromisoformat(v["datetime"])
+        if "timedelta_us" in v and len(v) == 1:
+            import datetime as _dtm
+            return _dtm.timedelta(microseconds=v["timedelta_us"])
         if "fraction" in v:
             return v["float"]
         if "ndarray" in v:
@@ -69,6 +80,13 @@ def _float_args(args):
     for k, v in args.items():
         out[k] = float(v) if isinstance(v, fractions.Fraction) else v
     return out
+
+
+def _json_default(o):
+    import datetime as _dtm
+    if isinstance(o, (_dtm.datetime, _dtm.timedelta)):
+        return str(o)
+    return repr(o)
 
 
 def find_owner(run, vc):
@@ -100,8 +118,24 @@ def args_from_model(owner, model, vc):
     else:
         sig = inspect.signature(owner.fn)
         names = [n for n in sig.parameters]
+        consts = {k: v.kw["value"] for k, v in owner.params.items() if hasattr(v, "tag") and v.tag == "const"}
+        names = [n for n in names if n not in consts]
     out = {}
     for n in names:
+        if (n + "_year") in model or (n + "_month") in model:
+            # a symbolic datetime parameter (fields <n>_year, ...): rebuild the datetime
+            import datetime as _dtm
+            flds = []
+            for fld, dflt in (("year", 2000), ("month", 1), ("day", 1), ("hour", 0), ("minute", 0), ("second", 0), ("microsecond", 0)):
+                fv = model_value(model, "%s_%s" % (n, fld))
+                if fld == "microsecond" and fv is None and model_value(model, n + "_ms") is not None:
+                    fv = model_value(model, n + "_ms") * 1000
+                flds.append(dflt if fv is None else int(fv))
+            try:
+                out[n] = _dtm.datetime(*flds)
+            except ValueError:
+                return None
+            continue
         v = model_value(model, n)
         if v is None:
             tab = model.get("__table__" + n)
@@ -116,6 +150,8 @@ def args_from_model(owner, model, vc):
                 continue
             v = 0  # unconstrained by the model
         out[n] = v
+    if not isinstance(owner, Contract):
+        out.update({k: v.kw["value"] for k, v in owner.params.items() if hasattr(v, "tag") and v.tag == "const"})
     return out
 
 
@@ -317,6 +353,7 @@ def write_ledger(prop):
 def run_property(prop, tier, seed, verbose=False, write_evidence=True):
     t0 = time.time()
     rng = random.Random(seed)
+    os.environ["VERIF_TIER_EFFECTIVE"] = tier
     run = Run(prop, tier, seed)
     mod = run.load()
     findings, fixed = load_known(prop)
@@ -346,6 +383,7 @@ def run_property(prop, tier, seed, verbose=False, write_evidence=True):
     backends = {}
     solver_time = 0.0
     samples = []
+    run.vcs = [v for v in run.vcs if v.kind != "canary-aux"]
     normal = [v for v in run.vcs if v.kind != "canary"]
     replay_dir = os.path.join(HERE, "replays", prop)
     for v in run.vcs:
